@@ -8,7 +8,6 @@ import (
 	"os"
 	"os/exec"
 	"path/filepath"
-	"runtime"
 	"sort"
 	"strings"
 	"time"
@@ -199,7 +198,7 @@ func runProperty(w *World, prop string, timeout time.Duration, all bool, workdir
 	type job struct {
 		u *UnitResult
 	}
-	solveUnits(pr.Units, solveOpts{timeout: timeout, all: all, workdir: filepath.Join(workdir, prop), par: runtime.NumCPU()})
+	solveUnits(pr.Units, solveOpts{timeout: timeout, all: all, workdir: filepath.Join(workdir, prop), par: solverPar()})
 	for _, ur := range pr.Units {
 		for _, o := range ur.Obligs {
 			if o.Canary {
